@@ -308,7 +308,8 @@ Proof.
   intros I H. unfold connect in H.
   destruct (block_sanity_ok b) eqn:Hs; simpl in H; [|discriminate].
   destruct (block_context_ok cfg_fixed mat cur s b) eqn:Hc; simpl in H; [|discriminate].
-  destruct (N.eqb_spec (b_prev b) (s_tip s)) as [Hprev|]; [|discriminate].
+  destruct (N.eqb_spec (b_prev b) (s_tip s)) as [Hprev|]; [|discriminate]. simpl in H.
+  destruct (b_height b =? cur + 1); [|discriminate].
   destruct (save_block s b) as [s1| |] eqn:Hsave; try discriminate. inversion H; subst s1. clear H.
   destruct (sanity_facts b Hs) as [Hids [Hsp _]].
   destruct (context_facts _ _ _ _ Hs Hc) as [Hfresh0 Hunsp].
